@@ -1,5 +1,6 @@
 import Crusta.Proofs.Oracle
 import Crusta.Proofs.StaticAll
+import Crusta.Proofs.StoreIccma
 
 /-! # C01 — single-extension answers are genuine extensions (property theorems) -/
 
@@ -51,5 +52,19 @@ theorem graph_algorithms_exact (v : FwView) (g : G) (h : v.Ok g) :
     (∀ oc ∈ allComps v, ∃ c, oc = some c ∧ GoodComp g c ∧ c.ids ≠ []) ∧
     (∀ a, g.live a = true → ∃ c, some c ∈ allComps v ∧ a ∈ c.ids) :=
   ⟨(groundedV_spec v g h).1, (allComps_spec v g h).1, (allComps_spec v g h).2.2⟩
+
+/-- the three ways a framework reaches a solver all present a graph (hypothesis `v.Ok g` of the
+theorems above): a compact well-formed framework; a store reached by any update history; the store
+built by the ICCMA'23 reader, repeated attack lines included — and then the graph is the declared one -/
+theorem views_present_their_graph :
+    (∀ (af : AF), af.WF → af.view.Ok af.g) ∧
+    (∀ ops : List StoreOp, ∃ s, Store.runOps Store.empty ops = some s ∧ s.view.Ok s.g) ∧
+    (∀ (n : Nat) (atts : List (Nat × Nat)), (∀ p ∈ atts, p.1 < n ∧ p.2 < n) →
+      (Store.ofIccma n atts).view.Ok (Store.ofIccma n atts).g ∧
+      (∀ a, (Store.ofIccma n atts).hasId a = true ↔ a < n) ∧
+      (∀ a b, (Store.ofIccma n atts).HasAtt a b ↔ (a, b) ∈ atts)) := by
+  refine ⟨AF.view_ok, fun ops => ?_, fun n atts h => ⟨Store.ofIccma_view_ok n atts h, Store.ofIccma_g n atts h⟩⟩
+  obtain ⟨s, hs, hinv, hrows⟩ := Store.rows_reachable ops
+  exact ⟨s, hs, Store.view_ok s hinv hrows⟩
 
 end Crusta.C01
